@@ -4,7 +4,9 @@ package c01
 import (
 	"bytes"
 	"context"
+	"crypto/sha256"
 	"crypto/x509"
+	"encoding/hex"
 	"encoding/pem"
 	"flag"
 	"fmt"
@@ -385,6 +387,9 @@ type caseSpec struct {
 	snpOptKind int
 	attFmt     string
 	rootDER    bool
+	// pools, when non-nil, makes the cases of one history share their *x509.CertPool objects: one
+	// pool per (root kind, leaf), as a long-lived relying party keeps one pool for many verifications.
+	pools map[string]*x509.CertPool
 }
 
 // checkCase runs one case and judges it: accept => authentic. Returns whether the entry accepted.
@@ -400,6 +405,15 @@ func checkCase(t ev.TB, name string, cs caseSpec, w *world) (accepted bool) {
 		// before verification starts); use the foreign root instead so the case stays meaningful.
 		rootKind = "foreign-same-subject"
 		roots, pool = rootSet(rootKind, w, leaf)
+	}
+	if cs.pools != nil && pool != nil {
+		fp := sha256.Sum256(leaf.Raw)
+		key := rootKind + "|" + hex.EncodeToString(fp[:6])
+		if p, ok := cs.pools[key]; ok {
+			pool = p
+		} else {
+			cs.pools[key] = pool
+		}
 	}
 	now := pickTime(timeClass, leaf)
 	rc := runCfg{entry: entry, e: m.e, pool: pool, roots: roots, now: now, snpOptKind: cs.snpOptKind, attFmt: cs.attFmt, rootDER: cs.rootDER}
@@ -620,6 +634,37 @@ func TestClosureSequence(t *testing.T) {
 			}
 			ev.Case(name, i > 0, fmt.Sprintf("%v|%d|%s|%s", viaGetter, i, kind, prev), prev+"->"+out, nil)
 			prev = out
+		}
+	})
+}
+
+// A relying party keeps one root pool (and the same few endorsements) for many verifications at
+// different times: every one of them is judged on its own, whatever was accepted before.
+func TestSamePoolHistories(t *testing.T) {
+	const name = "authenticity/same-pool-history"
+	ev.Rule(name, "histories of 3-6 verifications in one world through the library entry points, all sharing ONE *x509.CertPool object per root set (and re-presenting the same endorsements): the first verification is a genuine endorsement, genuine roots, time inside the window (accepted); the later ones draw mutation kind (half unmutated), root set and time class {inside, NotBefore-1s, NotBefore, NotAfter, NotAfter+1s, far future}; "+oracleText+", each verification judged on its own; non-trivial = a verification after an accepted one that the reference rejects, or an accepted authentic one; distinct = (entry, mutation, roots, time, position)")
+	checks(ev.Scale(120, 2500))
+	lib := []string{"verify.Endorsement", "verify.EndorsementProto", "closure/blob", "closure/opts.Endorsement", "SevValidate/opts", "TdxValidate/opts"}
+	times := []string{"inside", "notbefore-1s", "notbefore", "notafter", "notafter+1s", "far-future"}
+	rapid.Check(t, func(t *rapid.T) {
+		w := makeWorld(t)
+		pools := map[string]*x509.CertPool{}
+		n := rapid.IntRange(3, 6).Draw(t, "verifications")
+		for i := 0; i < n; i++ {
+			cs := caseSpec{entry: pick(t, "entry", lib), rootKind: "genuine", timeClass: "inside", pools: pools}
+			kind := "none"
+			if i > 0 {
+				if rapid.Bool().Draw(t, "mutateThis") {
+					kind = pick(t, "mutation", mutations)
+				}
+				cs.timeClass = pick(t, "time", times)
+				if rapid.IntRange(0, 3).Draw(t, "otherRoots") == 0 {
+					cs.rootKind = pick(t, "roots", []string{"foreign-same-subject", "both", "genuine-and-leaf"})
+				}
+			}
+			cs.m = mutate(t, w, kind, "base")
+			checkCase(t, name, cs, w)
+			ev.Class(name, fmt.Sprintf("position:%d", min(i, 3)))
 		}
 	})
 }
